@@ -84,6 +84,7 @@ class Interp:
         self.hooks = {}           # name -> callable
         self.max_depth = max_depth
         self.unmodelled = set()
+        self.ref_syms = ["CS0", "MS0", "G0", "N0"]   # entry-state symbols: always coordinates of joins
         self.stats = {"blocks": 0, "calls_inlined": 0, "joins": 0, "entail": 0, "states": 0}
         self.variant_names = dict(ENUM_VARIANTS)
         for n, a in self.f.adts.items():
@@ -108,6 +109,10 @@ class Interp:
         s = ty["s"] if isinstance(ty, dict) else str(ty)
         if isinstance(ty, dict) and ty.get("k") == "param":
             return ("opq", next(self.ctr))
+        if isinstance(ty, dict) and ty.get("k") == "ref":
+            o = self.new_oid("A")
+            st.store[o] = self.fresh_of_ty(st, ty["ty"], tag)
+            return ("ptr", o, ())
         if s in UNSIGNED:
             return self.fresh_int(st, tag, True)
         if s in SIGNED:
@@ -135,7 +140,7 @@ class Interp:
         step = path[0]
         rest = path[1:]
         # special: link fields of entries are modelled by the traversal model, not stored
-        if v[0] == "struct" and v[1] == self.r.entry and step in self.r.links:
+        if v[0] == "struct" and v[1] == self.r.entry and step in self.r.links and step not in v[2]:
             res = self._read_link(st, oid, v, step)
             if rest:
                 return self._nav(st, None, res, rest, done + (step,))
@@ -250,14 +255,23 @@ class Interp:
             if ent is not None and ent[0] == "struct" and ent[1] == r.entry:
                 tid = ent[2].get("#tid")
                 old = ent[2].get(r.E_SIZE)
-                if tid is not None and is_int(old) and is_int(val):
+                if isinstance(tid, tuple) and tid and tid[0] == "stale":
+                    self._havoc_table(st, tid[1])
+                elif tid is not None and is_int(old) and is_int(val):
                     self._table_delta(st, tid, val[1] - old[1], 0)
                 elif tid is not None:
                     self._havoc_table(st, tid)
-        if path and path[-1] in r.links:
+                # remember that this entry's recorded size was rewritten
+                f2 = dict(ent[2])
+                f2["#dirty"] = True
+                if len(path) > 1:
+                    self._store_at(st, oid, path[:-1], ("struct", ent[1], f2))
+                else:
+                    st.store[oid] = ("struct", ent[1], f2)
+        if path and path[-1] in r.links and oid[0] != "L":
             par = self.load(st, oid, path[:-1]) if len(path) > 1 else st.store.get(oid)
             if par is not None and par[0] == "struct" and par[1] == r.entry:
-                return  # link stores are not modelled numerically
+                return  # link stores into heap entries / the seal: the list shape is abstracted by the traversal model
         self._store_at(st, oid, path, val)
 
     # ------------------------------------------------------------------ tables
@@ -730,7 +744,7 @@ class Frame:
         for k, v in s.store.items():
             if k[0] == "L" and k[1] == self.fid:
                 if v[0] == "enum" and v[2] is not None:
-                    sig.append((k[2], v[2]))
+                    sig.append((k[2], self.ip.absmodels.enum_sig(v)))
                 elif v[0] == "bool":
                     sig.append((k[2], v[1]))
                 elif v[0] == "struct" and v[1] == self.ip.r.eptr:
@@ -928,7 +942,8 @@ class Frame:
                     size = ip.fresh_int(st, "s")
                     st.num.add(le(size[1], c["R"]))
                     st.num.add(ge(c["Rn"], 1))
-                    ent = ip.new_entry_obj(st, c["tid"], size, cur={"dir": c["dir"], "R": c["R"], "Rn": c["Rn"], "seal": c["seal"], "tid": c["tid"]})
+                    ent = ip.new_entry_obj(st, c["tid"], size, cur={"dir": c["dir"], "R": c["R"], "Rn": c["Rn"], "seal": c["seal"], "tid": c["tid"],
+                                                                     "first": bool(c.get("first"))})
                     c["res"] = ent
                     st.store[x[1]] = ("cursor", c)
                     return st.num.feasible()
@@ -1066,6 +1081,10 @@ class Joiner:
     def leq(self, new, old):
         self.map = {}
         for oid, vo in old.store.items():
+            if oid[0] == "H":
+                if oid in new.store and not self._leq_int(new.store[oid], vo):
+                    return False
+                continue
             if oid[0] not in ("L", "O", "R"):
                 continue      # heap objects are compared through the pointers that reach them
             if oid not in new.store:
@@ -1183,6 +1202,15 @@ class Joiner:
         self._depth = 0
         for oid in list(a.store):
             if oid in b.store:
+                if oid[0] in ("H", "F"):
+                    va, vb = a.store[oid], b.store[oid]
+                    if va == vb:
+                        out.store[oid] = va
+                    elif oid[0] == "H":
+                        sname = ip.sym("jh")
+                        self.fresh.append((sname, va, vb))
+                        out.store[oid] = Lin.sym(sname)
+                    continue
                 out.store[oid] = self.jv(a.store[oid], b.store[oid], a, b)
             # objects known only on one side are dropped (they are unreachable from the common part or re-materialised)
         out.store.update(self._extra)
@@ -1201,6 +1229,11 @@ class Joiner:
         news = [s for (s, _a, _b) in self.fresh]
         if news:
             others = self.int_locs(out, exclude=set(news))
+            have = set(o.key() for o in others)
+            for rs in getattr(ip, "ref_syms", ()):
+                l = Lin.sym(rs)
+                if l.key() not in have:
+                    others.insert(0, l)
             # (1) all affine equalities valid on both sides (Karr-style hull of the two affine spaces of location values)
             coords = [(Lin.sym(z), na.reduce_lin(defs_a[z]), nb.reduce_lin(defs_b[z])) for z in news]
             coords += [(y, na.reduce_lin(y), nb.reduce_lin(y)) for y in others]
@@ -1261,6 +1294,12 @@ class Joiner:
                 for x in v[2]:
                     rec(x, depth + 1)
         for oid, v in st.store.items():
+            if oid[0] == "H":
+                if isinstance(v, Lin):
+                    add(v)
+                continue
+            if oid[0] == "F":
+                continue
             rec(v, 0)
         return out[:40]
 
@@ -1353,6 +1392,7 @@ class Joiner:
             return None
         if x["dir"] == y["dir"] and x["seal"] == y["seal"] and x["tid"] == y["tid"]:
             c = dict(x)
+            c["first"] = bool(x.get("first")) and bool(y.get("first"))
             for fld in ("R", "Rn"):
                 if x[fld] != y[fld]:
                     s = self.ip.sym("j" + fld)
